@@ -1548,6 +1548,16 @@ func genesisLines(d []string) []string {
 	return out
 }
 
+// importPanicKey names the one cause of a refused import that is recorded as a known finding - oracle parameters that governance
+// stored and that do not fit together - apart from every other one
+func importPanicKey(dump []string) string {
+	st := Parse(dump)
+	if st.VP != 0 && st.Window != 0 && (st.VP > st.Window || st.Window%st.VP != 0 || st.MaxMiss >= st.Window) {
+		return "import-panics-inconsistent-oracle-params"
+	}
+	return "import-panics"
+}
+
 func monC17(tr *Trace, br map[string]int) (out []Violation) {
 	var last []string = tr.Init
 	for i, s := range tr.Steps {
@@ -1555,7 +1565,7 @@ func monC17(tr *Trace, br map[string]int) (out []Violation) {
 			br["c17:roundtrip"]++
 			f := strings.Fields(s.Res)
 			if f[0] == "panic" {
-				out = append(out, viol("C17", "import-panics", i, "import of the exported genesis panics: %s", s.Detail))
+				out = append(out, viol("C17", importPanicKey(last), i, "import of the exported genesis panics: %s", s.Detail))
 				continue
 			}
 			if f[0] != "ok" || len(f) < 2 || (f[1] != "same" && f[1] != "restricted-message-admitted-after-restart") {
@@ -1578,7 +1588,7 @@ func monC17(tr *Trace, br map[string]int) (out []Violation) {
 		if strings.HasPrefix(s.Op, "reimport") {
 			br["c17:restart"]++
 			if strings.HasPrefix(s.Res, "panic") {
-				out = append(out, viol("C17", "import-panics", i, "import of the exported genesis panics: %s", s.Detail))
+				out = append(out, viol("C17", importPanicKey(last), i, "import of the exported genesis panics: %s", s.Detail))
 			} else if s.Dump != nil {
 				a, b := genesisLines(last), genesisLines(s.Dump)
 				if strings.Join(a, "\n") != strings.Join(b, "\n") {
